@@ -5,7 +5,11 @@
 
 A generated document holds, for every feature named in "n", `count` DISTINCT instances of that feature (distinct style
 names, hyperlink targets, bookmark names, image payloads, table contents, list items, notes, comments, recipients,
-attachments, archive members, sheets ...).  Besides counted features there are on/off features (FLAGS, count 1) and CHOICE
+attachments, archive members, sheets ...; altimgs = images that carry alternative text (OOXML descr, ODF svg:title + svg:desc);
+kwords = keywords of the metadata (ODF: one meta:keyword element each, EPUB: one dc:subject each, else one comma separated
+string); .odf formula documents: formulas / fracs = FURTHER <semantics> blocks with a StarMath annotation of their own (plain
+/ `frac {a} {b}`), encodings = further annotations of the first block in other encodings - the typical file has one block with
+one annotation).  Besides counted features there are on/off features (FLAGS, count 1) and CHOICE
 features whose number selects a variant:
     optional information absent at every level (third-party readers substitute defaults - clock, generator names, random
     names - exactly there):  nocore / nometa = OOXML / ODF package without the core-properties / meta.xml part (a document
@@ -73,25 +77,25 @@ def jpeg(uid: int, w: int = 16, h: int = 8) -> bytes:
 
 _TEXT = ["paras", "heads", "links", "images", "tables", "lists"]
 FEATURES = {
-    "docx": _TEXT + ["styles", "notes", "comments", "revs", "boxes", "math", "units", "meta", "nocore"],
-    "odt": _TEXT + ["bookmarks", "notes", "comments", "revs", "units", "meta", "nometa", "emptymeta"],
-    "rtf": _TEXT + ["notes", "comments", "revs", "units", "meta"],
-    "pptx": _TEXT + ["notes", "comments", "math", "units", "meta", "nocore"],
-    "odp": _TEXT + ["notes", "units", "meta", "nometa", "emptymeta"],
-    "odg": _TEXT + ["units", "meta", "nometa", "emptymeta"],
-    "odf": ["paras", "meta"],
-    "ppt": ["paras", "heads", "images", "notes", "units", "meta"],
-    "pdf": ["paras", "heads", "images", "units", "meta", "enc", "userpw"],
-    "html": _TEXT + ["meta"],
-    "mhtml": _TEXT + ["meta"],
-    "epub": _TEXT + ["units", "meta"],
+    "docx": _TEXT + ["altimgs", "styles", "notes", "comments", "revs", "boxes", "math", "units", "kwords", "meta", "nocore"],
+    "odt": _TEXT + ["altimgs", "bookmarks", "notes", "comments", "revs", "units", "kwords", "meta", "nometa", "emptymeta"],
+    "rtf": _TEXT + ["notes", "comments", "revs", "units", "kwords", "meta"],
+    "pptx": _TEXT + ["altimgs", "notes", "comments", "math", "units", "kwords", "meta", "nocore"],
+    "odp": _TEXT + ["altimgs", "notes", "units", "kwords", "meta", "nometa", "emptymeta"],
+    "odg": _TEXT + ["altimgs", "units", "kwords", "meta", "nometa", "emptymeta"],
+    "odf": ["paras", "formulas", "fracs", "encodings", "kwords", "meta"],
+    "ppt": ["paras", "heads", "images", "notes", "units", "kwords", "meta"],
+    "pdf": ["paras", "heads", "images", "units", "kwords", "meta", "enc", "userpw"],
+    "html": _TEXT + ["kwords", "meta"],
+    "mhtml": _TEXT + ["kwords", "meta"],
+    "epub": _TEXT + ["units", "kwords", "meta"],
     "txt": ["paras", "units"],
     "md": ["paras", "heads", "links", "lists", "units"],
     "json": ["paras"],
     "csv": ["rows"],
-    "xlsx": ["rows", "sheets", "images", "meta", "nocore"],
-    "ods": ["rows", "sheets", "images", "meta", "nometa", "emptymeta"],
-    "xls": ["rows", "sheets", "images", "meta"],
+    "xlsx": ["rows", "sheets", "images", "altimgs", "kwords", "meta", "nocore"],
+    "ods": ["rows", "sheets", "images", "altimgs", "kwords", "meta", "nometa", "emptymeta"],
+    "xls": ["rows", "sheets", "images", "kwords", "meta"],
     "eml": ["rcpts", "atts", "html", "bare", "noname", "rfc822"],
     "mbox": ["msgs", "rcpts", "atts", "html", "bare", "noname"],
     "zip": ["members"],
@@ -125,16 +129,30 @@ class _B:
     def __init__(self, img="png"):
         self.tk = Tokens(0)
         self.images = {}
+        self.alts = {}
         self.img = img
 
     def t(self, c):
         return self.tk.new(c)
 
-    def image(self):
+    def image(self, alt=False):
         k = "i%d" % (len(self.images) + 1)
         uid = len(self.images) + 1
         self.images[k] = (png(uid), "png") if self.img == "png" else (jpeg(uid), "jpeg")
+        if alt:
+            self.alts[k] = (self.t("G"), self.t("G") + " " + self.t("G"))      # (title, description / alternative text)
         return k
+
+    def ooxml_opts(self, opts=None):
+        """writer options: alternative text = descr attribute of the picture"""
+        o = dict(opts or {})
+        if self.alts:
+            o["alt"] = {k: v[1] for k, v in self.alts.items()}
+        return o
+
+    def odf_images(self):
+        """images for the ODF writers: alternative text = svg:title + svg:desc of the frame"""
+        return {k: (v + ({"title": self.alts[k][0], "desc": self.alts[k][1]},) if k in self.alts else v) for k, v in self.images.items()}
 
 
 def _adm_blocks(fmt, n, b: _B, first_unit=True):
@@ -153,6 +171,8 @@ def _adm_blocks(fmt, n, b: _B, first_unit=True):
         out.append(_p("Bkm%03dx%s" % (i, b.t("B"))))      # marker paragraphs: a text:bookmark is put in front of the text
     for _ in range(n.get("images", 0)):
         out.append(["img", b.image()])
+    for _ in range(n.get("altimgs", 0)):
+        out.append(["img", b.image(alt=True)])                # a picture WITH alternative text (title / description)
     for _ in range(n.get("tables", 0)):
         out.append(["tbl", [[[_p(b.t("C"))], [_p(b.t("C"))]], [[_p(b.t("C"))], [_p(b.t("C"))]]]])
     k = n.get("lists", 0)
@@ -175,6 +195,12 @@ def _adm_blocks(fmt, n, b: _B, first_unit=True):
     return out
 
 
+def _keywords(n, b: "_B") -> str:
+    """kwords = k: the document's keyword list has k distinct members (ODF: one meta:keyword element each, EPUB: one
+    dc:subject each, elsewhere one comma separated string)"""
+    return ", ".join(b.t("W") for _ in range(n["kwords"]))
+
+
 def _adm_doc(fmt, n, b: _B):
     meta = {}
     if n.get("meta") and not any(n.get(k) for k in NOMETA):
@@ -184,6 +210,8 @@ def _adm_doc(fmt, n, b: _B):
         if fmt in ("docx", "odt", "rtf", "ppt"):
             meta["header"] = b.t("R")
             meta["footer"] = b.t("R")
+    if n.get("kwords") and not any(n.get(k) for k in NOMETA):
+        meta["keywords"] = _keywords(n, b)
     units = []
     nunits = max(1, n.get("units", 0))
     titled = max(0, n.get("heads", 0) - 1) if fmt in ("pptx", "odp") else 0
@@ -290,6 +318,42 @@ def _odf_empty_meta(data: bytes) -> bytes:
     return _rezip(data, edit)
 
 
+_ODF_SEM_END = "</semantics></math>"
+
+
+def _odf_more_formulas(data: bytes, n, b) -> bytes:
+    """a formula document holding MORE than the one formula / the one annotation of the writer's document (MathML: <math> takes
+    any number of children, <semantics> any number of annotations):
+      formulas = k   k further <semantics> blocks, each a row of two identifiers with its own StarMath annotation "a b"
+      fracs = k      k further <semantics> blocks, each a fraction <mfrac> with the StarMath annotation "frac {a} {b}"
+      encodings = k  k further annotations of the FIRST block in other encodings (TeX, application/x-tex, ...), each holding its
+                     own source text
+    every annotation text of the document is distinct"""
+    encs = ["TeX", "application/x-tex", "LaTeX", "application/x-latex", "text/plain", "AsciiMath", "Maple", "Mathematica"]
+
+    def edit(name, payload):
+        if name != "content.xml":
+            return payload
+        s = payload.decode("utf-8")
+        if s.count(_ODF_SEM_END) != 1:
+            raise ValueError("content.xml of the ODF formula writer does not end in one semantics block")
+        more = ""
+        for i in range(n.get("encodings", 0)):
+            enc = encs[i % len(encs)] + ("" if i < len(encs) else "-%d" % (i // len(encs)))
+            more += '<annotation encoding="%s">%s %s</annotation>' % (enc, b.t("F"), b.t("F"))
+        blocks = ""
+        for _ in range(n.get("formulas", 0)):
+            x, y = b.t("F"), b.t("F")
+            blocks += ('<semantics><mrow><mi>%s</mi><mi>%s</mi></mrow><annotation encoding="StarMath 5.0">%s %s</annotation></semantics>'
+                       % (x, y, x, y))
+        for _ in range(n.get("fracs", 0)):
+            x, y = b.t("F"), b.t("F")
+            blocks += ('<semantics><mfrac><mi>%s</mi><mi>%s</mi></mfrac><annotation encoding="StarMath 5.0">frac {%s} {%s}</annotation>'
+                       '</semantics>' % (x, y, x, y))
+        return s.replace(_ODF_SEM_END, more + "</semantics>" + blocks + "</math>").encode("utf-8")
+    return _rezip(data, edit)
+
+
 # -------------------------------------------------------------------------------------------------------- html family
 
 def _html_body(n, b: _B, img_src):
@@ -312,9 +376,10 @@ def _html_body(n, b: _B, img_src):
 
 def _html_head(n, b: _B):
     if not n.get("meta"):
-        return ""
+        return f'<meta name="keywords" content="{_keywords(n, b)}"/>' if n.get("kwords") else ""
     return (f'<meta name="author" content="{b.t("Z")}"/><meta name="description" content="{b.t("Z")}"/>'
-            f'<meta name="keywords" content="{b.t("Z")}, {b.t("Z")}"/>')
+            + (f'<meta name="keywords" content="{b.t("Z")}, {b.t("Z")}"/>' if not n.get("kwords") else
+               f'<meta name="keywords" content="{_keywords(n, b)}"/>'))
 
 
 def _epub(n, b: _B) -> bytes:
@@ -335,6 +400,8 @@ def _epub(n, b: _B) -> bytes:
     if n.get("meta"):
         extra = (f'<dc:creator>{b.t("Z")}</dc:creator><dc:publisher>{b.t("Z")}</dc:publisher><dc:subject>{b.t("Z")}</dc:subject>'
                  f'<dc:subject>{b.t("Z")}</dc:subject><dc:description>{b.t("Z")}</dc:description><dc:date>2024-03-05</dc:date>')
+    for _ in range(n.get("kwords", 0)):
+        extra += f'<dc:subject>{b.t("W")}</dc:subject>'
     opf = ('<?xml version="1.0" encoding="utf-8"?><package xmlns="http://www.idpf.org/2007/opf" version="3.0" unique-identifier="id">'
            '<metadata xmlns:dc="http://purl.org/dc/elements/1.1/"><dc:identifier id="id">urn:verif:c06</dc:identifier>'
            f'<dc:title>{b.t("Z")}</dc:title><dc:language>en</dc:language>{extra}</metadata>'
@@ -368,6 +435,8 @@ def _sheets(fmt, n, b: _B):
     meta = {}
     if n.get("meta") and not any(n.get(k) for k in NOMETA):
         meta = {"title": b.t("Z"), "author": b.t("Z"), "subject": b.t("Z"), "keywords": b.t("Z"), "description": b.t("Z")}
+    if n.get("kwords") and not any(n.get(k) for k in NOMETA):
+        meta["keywords"] = _keywords(n, b)
     return ["doc", meta, sheets]
 
 
@@ -496,7 +565,7 @@ def _build_gen(fmt, n) -> bytes:
         from verif.gen import ooxml
         b = _B("png")
         doc = _adm_doc(fmt, n, b)
-        data = getattr(ooxml, fmt)(doc, b.images, {})
+        data = getattr(ooxml, fmt)(doc, b.images, b.ooxml_opts())
         if fmt == "docx" and n.get("styles"):
             data = _docx_restyle(data, n["styles"])
         return _ooxml_drop_core(data) if n.get("nocore") else data
@@ -506,9 +575,12 @@ def _build_gen(fmt, n) -> bytes:
         doc = _adm_doc(fmt, n, b)
         if fmt == "odf":
             doc[2] = [["unit", [_p(b.t("B"))], {}]] if not n.get("paras") else [["unit", doc[2][0][1][:1], {}]]
-        data = getattr(odf, fmt)(doc, b.images, {"omit_parts": ["meta.xml"]} if n.get("nometa") else {})
+        data = getattr(odf, fmt)(doc, b.odf_images(), {"omit_parts": ["meta.xml"]} if n.get("nometa") else
+                                 ({"split_keywords": True} if n.get("kwords") else {}))
         if fmt == "odt" and n.get("bookmarks"):
             data = _odt_bookmarks(data)
+        if fmt == "odf" and any(n.get(k) for k in ("formulas", "fracs", "encodings")):
+            data = _odf_more_formulas(data, n, b)
         return _odf_empty_meta(data) if n.get("emptymeta") and not n.get("nometa") else data
     if fmt == "rtf":
         from verif.gen import rtf
@@ -553,17 +625,19 @@ def _build_gen(fmt, n) -> bytes:
     if fmt in ("xlsx", "ods", "xls"):
         b = _B("png")
         doc = _sheets(fmt, n, b)
-        keys = [b.image() for _ in range(n.get("images", 0))]
+        keys = [b.image() for _ in range(n.get("images", 0))] + [b.image(alt=True) for _ in range(n.get("altimgs", 0))]
         if fmt == "xlsx":
             from verif.gen import ooxml
-            data = ooxml.xlsx(doc, b.images, {"sheet_images": {0: keys}} if keys else {})
+            data = ooxml.xlsx(doc, b.images, b.ooxml_opts({"sheet_images": {0: keys}} if keys else {}))
             return _ooxml_drop_core(data) if n.get("nocore") else data
         if fmt == "ods":
             from verif.gen import odf
             o = {"images_at": [[0, k] for k in keys]} if keys else {}
             if n.get("nometa"):
                 o["omit_parts"] = ["meta.xml"]
-            data = odf.ods(doc, b.images, o)
+            elif n.get("kwords"):
+                o["split_keywords"] = True
+            data = odf.ods(doc, b.odf_images(), o)
             return _odf_empty_meta(data) if n.get("emptymeta") and not n.get("nometa") else data
         from verif.gen import biff8
         return biff8.xls(doc, {k: v[0] for k, v in b.images.items()}, {"pictures": [[0, k] for k in keys]} if keys else {})
